@@ -142,6 +142,10 @@ def py_state(ctl):
     return st, crc
 
 
+def _snap_fp(snap):
+    return tuple((c.on, c.start_line, c.page, c.y_address, zlib.crc32(bytes(b for p in c.vram for b in p))) for c in snap.chips)
+
+
 def run_histories(res: Result, histories, pixels=True):
     from .. import rust
     from pce500.display.controller_wrapper import HD61202Controller
@@ -153,8 +157,22 @@ def run_histories(res: Result, histories, pixels=True):
         py = HD61202Controller()
         case = {"ops": [list(o) for o in h[:300]]}
         bogus_write_seen = False
+        held = None            # (snapshot object taken after an earlier operation, its fingerprint at that time)
+        completed = True
         for i, (op, ro) in enumerate(zip(h, rout["out"])):
             kind, addr, val = op
+            if held is not None and i % 7 == 3:
+                # a snapshot handed out earlier is a VALUE: later reads/writes must not change what it says
+                res.monitor("py_snapshot_is_a_value")
+                if _snap_fp(held[0]) != held[1]:
+                    res.violation({"clause": "earlier_snapshot_changed_by_later_operation", "model": "py"}, case,
+                                  {"taken_after_step": held[2], "checked_before_step": i})
+                    completed = False
+                    break
+                held = None
+            if held is None and i % 7 == 0:
+                sn = py.get_snapshot()
+                held = (sn, _snap_fp(sn), i)
             lo = addr & 0xF
             if kind == "w" and (lo & 1) and RefLcd.decode(addr) is not None:
                 bogus_write_seen = True
@@ -177,6 +195,7 @@ def run_histories(res: Result, histories, pixels=True):
             if st != ref.state() or crc != ref.crc() or (kind == "r" and got_py != want_rd):
                 res.violation(dict(tag, clause="python_protocol_state"), case,
                               {"step": i, "op": op, "got": [st, got_py], "want": [ref.state(), want_rd]})
+                completed = False
                 break
             if kind == "r":
                 # busy flag is only visible through status reads: compare via the value itself (done above)
@@ -186,6 +205,7 @@ def run_histories(res: Result, histories, pixels=True):
             if rs_state != ref.state() or ro["crc"] != ref.crc() or (kind == "r" and ro.get("rd") != want_rd):
                 res.violation(dict(tag, clause="rust_protocol_state"), case,
                               {"step": i, "op": op, "got": [rs_state, ro.get("rd")], "want": [ref.state(), want_rd]})
+                completed = False
                 break
             res.monitor("py_vs_rs")
             if kind == "w" and (lo & 3) == 2 and pixels and RefLcd.decode(addr) is not None:
@@ -199,6 +219,7 @@ def run_histories(res: Result, histories, pixels=True):
                     res.violation(dict(tag, clause="data_write_changes_more_than_one_column", model="rs",
                                        start_aligned=aligned), case,
                                   {"step": i, "op": op, "pixels": ro["px"][:12]})
+                    completed = False
                     break
                 after = py.get_display_buffer()
                 import numpy as np
@@ -207,7 +228,25 @@ def run_histories(res: Result, histories, pixels=True):
                 if len(ch) > 8 * nchips or len(cols_py) > nchips:
                     res.violation(dict(tag, clause="data_write_changes_more_than_one_column", model="py"), case,
                                   {"step": i, "op": op, "pixels": ch[:12].tolist()})
+                    completed = False
                     break
+        if completed and pixels:
+            # the display is a function of the chips' state: a fresh controller replaying the same operations (and rendering
+            # only now) must show the same picture as the one that has been rendering all along
+            import numpy as np
+            fresh = HD61202Controller()
+            for kind2, addr2, val2 in h:
+                if kind2 == "reset":
+                    fresh.reset()
+                elif kind2 == "w":
+                    fresh.write(addr2, val2)
+                else:
+                    fresh.read(addr2)
+            res.monitor("py_render_history_independent")
+            a_, b_ = np.asarray(py.get_display_buffer()), np.asarray(fresh.get_display_buffer())
+            if a_.shape != b_.shape or (a_ != b_).any():
+                res.violation({"clause": "display_depends_on_earlier_renders", "model": "py"}, case,
+                              {"pixels_differ": int((a_ != b_).sum()) if a_.shape == b_.shape else -1})
     return
 
 
